@@ -276,7 +276,7 @@ theorem DocSpec.build (F : ColForm σ) (ap : Bool) (d : DocSpec σ) (h : DocOK F
   have hE : enumBps (d.elems F) = d.enums.map fun e => enumBpN e.1 e.2 := by
     simp [enumBps, DocSpec.elems, mkEnumElemN, ColForm.mkElem, mkRefElem, mkStickyElem, List.filterMap_append,
       List.filterMap_map, Function.comp_def]
-  have hT : tableBps (d.elems F) = d.tables.map fun t => F.tableBpC t.name t.cols t.comment := by
+  have hT : tableBps (d.elems F) = d.tables.map fun t => F.tableBpC t.name t.cols t.note t.comment := by
     simp [tableBps, DocSpec.elems, mkEnumElemN, ColForm.mkElem, mkRefElem, mkStickyElem, List.filterMap_append,
       List.filterMap_map, Function.comp_def]
   have hG : groupBps (d.elems F) = d.groups.map fun g => groupBpOf g.1 (F.gnames d.tables g) := by
@@ -320,7 +320,7 @@ theorem DocSpec.build (F : ColForm σ) (ap : Bool) (d : DocSpec σ) (h : DocOK F
   have hFe := foldlM_enums d.enums [] h.enums (by simpa using h.enumNames)
   simp only [List.map_nil, List.nil_append] at hFe
   have hFt := F.foldlM_tables ap (d.enums.map mkEnum) d.tables [] (by simpa using h.resolvable.tnames)
-    (fun t ht => (h.tables t ht).2.1) h.noShadow
+    (fun t ht => (h.tables t ht).2.1) h.noShadow (fun t ht => (h.tables t ht).2.2.2.2.2.2)
   simp only [List.map_nil, List.nil_append] at hFt
   have hst : (d.sticky.map fun s => ({ name := s.name, text := s.text } : Bp.StickyBp)).map buildSticky = d.sticky := by
     rw [List.map_map]
@@ -425,11 +425,11 @@ theorem DocSpec.render (F : ColForm σ) (ap : Bool) (d : DocSpec σ) (h : DocOK 
   have htabs : (List.range (d.db F ap).tables.length).mapM (Dbml.renderTable (d.db F ap)) = .ok (d.tables.map F.tabText) := by
     have := range_mapM_form_pos F.mkTable "table position" F.tabText d.tables
       (fun i t => Dbml.renderTableBody (d.db F ap) i t)
-      (fun i t ht => F.renderTableBody_ok (d.db F ap) i t.name t.cols t.comment
+      (fun i t ht => F.renderTableBody_ok (d.db F ap) i t.name t.cols t.comment t.note
         (fun ci s hs => F.inline_rendered d.tables h.resolvable (d.db F ap) rfl d.inl d.refs rfl h.inlIn h.inlKind
           h.inlWritten i ci t s ht hs)
         (h.tables t (List.mem_of_getElem? ht)).2.1 (h.tables t (List.mem_of_getElem? ht)).2.2.1
-        (h.tables t (List.mem_of_getElem? ht)).2.2.2)
+        (h.tables t (List.mem_of_getElem? ht)).2.2.2.1 (h.tables t (List.mem_of_getElem? ht)).2.2.2.2.1)
     unfold Dbml.renderTable
     exact this
   have hrefs : ((d.db F ap).refs.filter (!·.inline)).mapM (Dbml.renderRef (d.db F ap))
@@ -552,7 +552,8 @@ abbrev FlagDoc := DocSpec FCol
 /-- **C01 / C02 / C05 / C14 / C15: whole documents, end to end.**  A database holding
     * any number of enums in schema public with pairwise different quoted names and quoted items, each item possibly with
       a one-line note (`"item" [note: 'text']`; the empty text stands for: no note),
-    * any positive number of tables with pairwise different quoted names, each possibly under a one-line comment, each
+    * any positive number of tables with pairwise different quoted names, each possibly under a one-line comment and
+      possibly with a one-line note written as a `Note { '…' }` block after its columns, each
       with any positive number of columns carrying any subset of `pk`, `increment`, `unique`, `not null`, possibly an
       integer, one-line string or backtick-expression default, a one-line note and (properties switch on) any number of arbitrary properties, whose type text
       names no declared enum,
@@ -601,13 +602,13 @@ theorem flags_document_roundtrip_partial (ap : Bool) (d : FlagDoc)
 /-- the rendered text of a small document of every covered kind (a test of the statement on one literal) -/
 example : joinWith (lit "\n\n") (DocSpec.texts flagForm
       { enums := [(lit "status", [(lit "new", []), (lit "done", lit "it's over")])],
-        tables := [{ name := lit "a", cols := [{ name := lit "id", type := lit "int", pk := true }] },
+        tables := [{ name := lit "a", cols := [{ name := lit "id", type := lit "int", pk := true }], note := lit "the a's" },
                    { name := lit "b", cols := [{ name := lit "a id", type := lit "int", dflt := lit "1" }], comment := some (lit "child") }],
         refs := [{ kind := .manyToOne, t1 := 1, c1 := 0, t2 := 0, c2 := 0 }],
         groups := [(lit "g1", [1, 0])],
         sticky := [{ name := lit "todo", text := lit "check" }],
         project := some (lit "shop", [(lit "database_type", lit "PostgreSQL"), (lit "owner", lit "it's me")]) })
-    = lit "Project \"shop\" {\n    database_type: 'PostgreSQL'\n    owner: 'it\\'s me'\n}\n\nEnum \"status\" {\n    \"new\"\n    \"done\" [note: 'it\\'s over']\n}\n\nTable \"a\" {\n    \"id\" int [pk]\n}\n\n// child\nTable \"b\" {\n    \"a id\" int [default: 1]\n}\n\nRef {\n    \"b\".\"a id\" > \"a\".\"id\"\n}\n\nTableGroup \"g1\" {\n    \"b\"\n    \"a\"\n}\n\nNote todo {\n    'check'\n}" := by
+    = lit "Project \"shop\" {\n    database_type: 'PostgreSQL'\n    owner: 'it\\'s me'\n}\n\nEnum \"status\" {\n    \"new\"\n    \"done\" [note: 'it\\'s over']\n}\n\nTable \"a\" {\n    \"id\" int [pk]\n    Note {\n        'the a\\'s'\n    }\n}\n\n// child\nTable \"b\" {\n    \"a id\" int [default: 1]\n}\n\nRef {\n    \"b\".\"a id\" > \"a\".\"id\"\n}\n\nTableGroup \"g1\" {\n    \"b\"\n    \"a\"\n}\n\nNote todo {\n    'check'\n}" := by
   decide +kernel
 
 /-- non-vacuity of the hypotheses on inline references: table `b` hosts `ref: > "a"."id"` on its first column and
@@ -626,6 +627,9 @@ example :
       ∧ joinWith (lit "\n\n") (d.texts flagForm)
         = lit "Table \"a\" {\n    \"id\" int [pk]\n}\n\nTable \"b\" {\n    \"a id\" int [ref: > \"a\".\"id\", not null]\n    \"x\" int [ref: - \"a\".\"id\"]\n}\n\nRef {\n    \"b\".\"a id\" < \"a\".\"id\"\n}" := by
   decide +kernel
+
+/-- non-vacuity of the hypothesis on table notes -/
+example : TNoteOK (lit "the a's") := ⟨(by intro c hc; revert c; decide), (by decide), (by decide)⟩
 
 end C02
 end PyDBML
